@@ -2,7 +2,7 @@ import Bp7.Extracted
 /-! Facts the C18 model assumes about src/helpers.rs, re-extracted on every run. -/
 namespace Bp7.ExtractedOk.C18
 open Bp7.Extracted
-example : hexify_format = some "{:02x}" := by decide
+example : hexify_format = some "{:02x}" := rfl
 example : unhexify_step = some 2 := by decide
 example : unhexify_radix = some 16 := by decide
 example : unhexify_slice_width = some 2 := by decide
